@@ -109,8 +109,21 @@ class Lithium:
                 cast(Any, self.condition_script).cleanup(self.condition_args)
 
             # Make sure we exit with an interesting testcase
-            if self.last_interesting is not None:
+            # (the file is left alone if it already holds it, eg. check-only)
+            if self.last_interesting is not None and not self._on_disk(
+                self.last_interesting
+            ):
                 self.last_interesting.dump()
+
+    @staticmethod
+    def _on_disk(testcase: Testcase) -> bool:
+        """Check whether the testcase file already holds exactly this testcase."""
+        assert testcase.filename is not None
+        try:
+            on_disk = Path(testcase.filename).read_bytes()
+        except OSError:
+            return False
+        return on_disk == testcase.before + b"".join(testcase.parts) + testcase.after
 
     def process_args(self, argv: Optional[List[str]] = None) -> None:
         """Parse command-line args and initialize self.
